@@ -95,6 +95,8 @@ fn cmd_drive(m: &BTreeMap<String, String>) {
         max_classes: get(m, "max-classes", 24),
         session_timeout_s: get(m, "session-timeout", 900),
         rustc: m.get("rustc").map(PathBuf::from),
+        watchdog_s: get(m, "watchdog", 10),
+        sweep: get(m, "sweep", 16),
         out: out.clone(),
     };
     match drive::drive(&o) {
@@ -148,6 +150,7 @@ fn cmd_session(m: &BTreeMap<String, String>) {
         mutants: get(m, "mutants", 20_000),
         min_steps: get(m, "min-steps", 50),
         max_steps: get(m, "max-steps", 2000),
+        sweep_n: get(m, "sweep-n", 16),
     };
     let (plan, meta) = session::plan_session(&params, &pool);
     if m.contains_key("plan-only") {
